@@ -184,7 +184,81 @@ def handle (op _opts payload : String) : String :=
   else "bad-request"
 end P
 
+/-! ### FCHK field layer: `x<title>;<x run type|->;<x lot|->;<x basis|->;fields`, a field is
+`x<label>:<i|r|I|R>:<payload>`; an integer as text, a real as `[-]<mantissa>@<exponent>`, array items separated by `/`;
+loaded: `x<title>;<x run type|->;x<lot>;<x basis|->;fields`.  opts: `-` (iodata's widths) or `spec` (Gaussian's widths),
+optionally `+<label patterns separated by |>` (hex), the `label_patterns` of `_load_fchk_low`. -/
+namespace F
+open Iodata.Fmt.Fchk
+
+def decSci (s : String) : Sci :=
+  match s.splitOn "@" with
+  | [m, e] => if m.startsWith "-" then ⟨true, (m.drop 1).toString.toNat!, decInt e⟩ else ⟨false, m.toNat!, decInt e⟩
+  | _ => ⟨false, 0, 0⟩
+def encSci (x : Sci) : String := (if x.neg then "-" else "") ++ toString x.man ++ "@" ++ toString x.exp
+
+def decOpt (s : String) : Option Str := if s == "-" then none else some (decStr s)
+def encOpt (s : Option Str) : String := match s with | none => "-" | some t => encStr t
+
+def decFld (s : String) : Fld :=
+  match s.splitOn ":" with
+  | [l, k, p] =>
+    (decStr l, if k == "i" then .int (decInt p) else if k == "r" then .real (decSci p)
+      else if k == "I" then .ints (decList "/" decInt p) else .reals (decList "/" decSci p))
+  | _ => ([], .int 0)
+def encFld (f : Fld) : String :=
+  encStr f.1 ++ ":" ++ (match f.2 with
+    | .int i => "i:" ++ toString i
+    | .real x => "r:" ++ encSci x
+    | .ints l => "I:" ++ encList "/" (fun (i : Int) => toString i) l
+    | .reals l => "R:" ++ encList "/" encSci l)
+
+def decObj (s : String) : Obj :=
+  match s.splitOn ";" with
+  | [t, rt, lot, bas, fs] => ⟨decStr t, decOpt rt, decOpt lot, decOpt bas, decList "," decFld fs⟩
+  | _ => ⟨[], none, none, none, []⟩
+def encLoaded (o : Loaded) : String :=
+  ";".intercalate [encStr o.title, encOpt o.runType, encStr o.lot, encOpt o.basis, encList "," encFld o.fields]
+
+def layoutOf (opts : String) : Layout :=
+  if opts.startsWith "spec" then specG Gen.Layouts.fchkL else Gen.Layouts.fchkL
+
+def keepOf (opts : String) : Str → Bool :=
+  match opts.splitOn "+" with
+  | [_, pats] => let ps := (pats.splitOn "|").map strOfHex; fun l => ps.contains l
+  | _ => fun _ => true
+
+def intList (s : String) : List Int := decList "/" decInt s
+
+def handle (op opts payload : String) : String :=
+  let L := layoutOf opts
+  let R := Gen.Layouts.fchkRunTypes
+  if op == "dump" || op == "spec" then okHex (dump L R (decObj payload))
+  else if op == "dumpfields" then okHex ((decObj payload).fields.flatMap (dumpField L))
+  else if op == "load" then
+    match load L.reader R (keepOf opts) (linesOfHex payload) with
+    | .ok o => "ok " ++ encLoaded o
+    | .error _ => "err LoadError"
+  else if op == "tril" then
+    -- payload: n;flat row-major matrix
+    match payload.splitOn ";" with
+    | [n, m] =>
+      let n := decNat n
+      let flat := intList m
+      let rows := (List.range n).map fun i => (flat.drop (i * n)).take n
+      "ok " ++ encList "/" (fun (i : Int) => toString i) (tril rows)
+    | _ => "bad-request"
+  else if op == "dense" then
+    let t := intList payload
+    let n := triRows t.length
+    "ok " ++ toString n ++ ";" ++ encList "/" (fun (i : Int) => toString i) (dense 0 n t).flatten
+  else if op == "quadw" then "ok " ++ encList "/" (fun (i : Int) => toString i) (pick 0 Gen.Layouts.fchkQuadW (intList payload))
+  else if op == "quadr" then "ok " ++ encList "/" (fun (i : Int) => toString i) (pick 0 Gen.Layouts.fchkQuadR (intList payload))
+  else "bad-request"
+end F
+
 def handle : List String → Option String
+  | ["fmt", op, "fchk", opts, payload] => some (F.handle op opts payload)
   | ["fmt", op, "pdb", opts, payload] => some (P.handle op opts payload)
   | ["fmt", op, "xyz", opts, payload] => some (X.handle op opts payload)
   | ["fmt", op, "sdf", opts, payload] => some (S.handle op opts payload)
